@@ -182,7 +182,11 @@ func Build(seed uint64, big bool) *Scenario {
 	}
 	tag, patch := seqPatch(patchKind)
 	sc.PatchTag = tag
-	a := chain.New(chain.Options{NumAccounts: numUsers, Patch: patch})
+	nAcc := numUsers
+	if big {
+		nAcc = chain.MaxUserAccounts // the crowded batch below is held by every account
+	}
+	a := chain.New(chain.Options{NumAccounts: nAcc, Patch: patch})
 	sc.App = a
 	if res := a.InitChain(); !res.OK {
 		panic(fmt.Sprintf("queries: InitChain failed: %+v", res))
@@ -312,6 +316,21 @@ func Build(seed uint64, big bool) *Scenario {
 		for pi := range projects {
 			for k := r.Range(1, 2); k > 0; k-- {
 				mkBatch(pi)
+			}
+		}
+		// one crowded batch: a balance row for each of the 100 user accounts and for three module accounts, i.e. more
+		// rows than the default page size (100) of the paginated queries
+		pi := r.Intn(len(projects))
+		c := classes[projects[pi].class]
+		var iss []*base.BatchIssuance
+		for u := 0; u < chain.MaxUserAccounts; u++ {
+			iss = append(iss, a.Issuance(u, "3", "0", ""))
+		}
+		res := do(a.MsgCreateBatch(pick(r, c.issuers), projects[pi].id, "", iss, "regen:batch-crowded", startPool[0], startPool[0].AddDate(1, 0, 0), false, nil))
+		if d := respField(res, "batch_denom"); d != "" {
+			batches = append(batches, batchInfo{denom: d, proj: pi})
+			for _, m := range []int{chain.IdxGov, chain.IdxEcocredit, chain.IdxFeePool} {
+				do(a.MsgSendCredits(0, m, d, "0.5", "0", "", ""))
 			}
 		}
 	} else {
